@@ -1,18 +1,163 @@
 (* Properties_C37.v — C37: DNS message decoding is memory-safe and faithful.
-   Statements only; proofs live in DnsProofs.v. *)
+   Statements only; proofs live in DnsProofs.v.  Model: DnsModel.v (rfc1035.cc / rfc3596.cc / rfc2671.cc).
+   Outcomes of the model: Ok _ | Err (the C function returned its error code) | Bad b, where b is one of
+   OobRead (read outside the datagram), OobWrite (write outside a name buffer), Wrap (unsigned wrap-around),
+   AssertFail, OutOfFuel. *)
 Require Import SquidV.Bytes SquidV.gen.Dns_gen SquidV.DnsModel SquidV.DnsProofs.
 Local Open Scope N_scope.
 
-(* --- for ANY datagram (any bytes, any length) decoding terminates within the fixed fuel, performs no read outside
-       the datagram, no write outside a name buffer, trips no assertion and no unsigned wrap-around --- *)
+(* ---------- 1. memory safety and termination, for EVERY datagram ---------- *)
+(* any bytes, any length: rfc1035MessageUnpack ends within the fixed fuel (compression-pointer loops included) with a
+   proper result: no read outside the datagram, no write outside a name buffer, no assertion, no wrap-around; and the
+   result is coherent (qdcount 1; at most ancount records; at least one if ancount <> 0) *)
 Theorem C37_unpack_any_datagram_terminates_in_bounds : forall buf,
   exists u, message_unpack buf = Ok u /\ unpacked_sane u.
 Proof. exact message_unpack_total. Qed.
 Print Assumptions C37_unpack_any_datagram_terminates_in_bounds.
 
-(* the name decoder alone: any datagram, any start offset, any recursion depth, any destination size ns <= capacity;
-   pointer loops end by the rdepth limit; a returned offset is inside the datagram *)
+(* the name decoder alone: any datagram, start offset, recursion depth and destination size ns <= capacity;
+   a returned offset is inside the datagram *)
 Theorem C37_name_unpack_any_input_in_bounds : forall buf off ns cap rdepth,
   0 < ns -> ns <= cap -> name_res_ok (lenN buf) (name_unpack buf (lenN buf) off ns cap rdepth).
 Proof. exact name_unpack_safe. Qed.
 Print Assumptions C37_name_unpack_any_input_in_bounds.
+
+(* ---------- 2. faithful decoding of names, with and without compression ---------- *)
+(* `name_at buf d off labels e`: the datagram holds at `off` the labels in line, ended by the root label or by a
+   pointer to where the rest of the name is encoded (<= d pointers in a row); then the decoder yields the labels joined
+   by dots, leaves the offset behind the in-line part, and counts wire(labels) octets.
+   PARTIAL: a pointer's target must denote at least one label; see the next theorem. *)
+Theorem C37_name_layout_decodes_partial : forall buf d off labels e ns cap,
+  name_at buf d off labels e ->
+  (d <= 65)%nat -> wire labels < ns -> ns <= cap -> ns <= 65536 ->
+  name_unpack buf (lenN buf) off ns cap 0 = Ok (join_dots labels, e, wire labels).
+Proof. exact name_unpack_decodes. Qed.
+Print Assumptions C37_name_layout_decodes_partial.
+
+(* FINDING: the full statement (plain RFC 1035 reading, name_at_gen false) is false: labels followed by a pointer to a
+   root label decode with a trailing dot ("www." for 03 'www' c0 04 with a zero octet at offset 4) *)
+Theorem C37_name_ptr_to_root_refuted :
+  exists buf d off labels e,
+    name_at_gen false buf d off labels e /\ (d <= 65)%nat /\ wire labels < 256 /\
+    name_unpack buf (lenN buf) off 256 256 0 = Ok (join_dots labels ++ [46], e, wire labels) /\
+    message_unpack buf = Ok (UAnswers (mkHdr 5878 1 0 0 0 1 1 0 1 0 0 0) (mkQ (join_dots labels ++ [46]) 1 1) []).
+Proof. exact name_ptr_to_root_refuted. Qed.
+Print Assumptions C37_name_ptr_to_root_refuted.
+
+(* ---------- 3. faithful decoding of whole messages ---------- *)
+(* any datagram laid out as header / one question / ancount records (names in any mix of in-line labels and
+   compression pointers, A/AAAA/CNAME/other rdata opaque, PTR rdata a name inside its rdlength), followed by anything:
+   the decoded header, question and records are exactly those laid out. PARTIAL only through name_at (above). *)
+Theorem C37_message_layout_decodes_partial : forall buf h q rrs,
+  msg_at buf h q rrs ->
+  message_unpack buf = Ok (if h_rcode h =? 0 then UAnswers h q rrs else URcode h q).
+Proof. exact message_unpack_at. Qed.
+Print Assumptions C37_message_layout_decodes_partial.
+
+(* the reference encoder (enc_msg: header with any Z bits, question, records whose owner is written in full or as a
+   pointer to the question name, PTR rdata as a name, any trailer): decode (encode m) = m *)
+Theorem C37_reference_encoder_round_trip : forall h z ql qt qc rrs trailer,
+  header_wf h -> z < 8 -> h_qd h = 1 -> h_an h = lenN rrs ->
+  labels_wf ql -> wire ql < 256 -> text_ok ql -> qt < 65536 -> qc < 65536 ->
+  Forall (rr_wf ql) rrs ->
+  message_unpack (enc_msg h z ql qt qc rrs trailer) =
+  Ok (if h_rcode h =? 0 then UAnswers h (mkQ (join_dots ql) qt qc) (map dec_rr rrs)
+      else URcode h (mkQ (join_dots ql) qt qc)).
+Proof. exact enc_msg_decodes. Qed.
+Print Assumptions C37_reference_encoder_round_trip.
+
+(* ---------- 4. a packed query decodes back to itself ---------- *)
+(* whatever rfc1035BuildAQuery / rfc1035BuildPTRQuery / rfc3596Build*Query (all = build_query) produce, with or without
+   the EDNS OPT record, decodes to the header they set and to the question (strtok labels cut to 63 octets, type, IN) *)
+Theorem C37_packed_query_decodes_back : forall sz hostname qid qtype edns msg q,
+  build_query sz hostname qid qtype edns = Ok (msg, q) ->
+  qid < 65536 -> wire (host_labels hostname) < 256 ->
+  q = mkQ (takeN (dns_sizeof_query_name - 1) (cstr hostname)) (qtype mod 65536) dns_CLASS_IN /\
+  message_unpack msg =
+    Ok (UAnswers (query_header qid edns) (mkQ (join_dots (host_labels hostname)) (qtype mod 65536) dns_CLASS_IN) []).
+Proof. exact build_query_roundtrip. Qed.
+Print Assumptions C37_packed_query_decodes_back.
+
+(* the side condition holds for every host name of at most 254 octets *)
+Theorem C37_packed_query_decodes_back_upto_254_octets : forall sz hostname qid qtype edns msg q,
+  build_query sz hostname qid qtype edns = Ok (msg, q) ->
+  qid < 65536 -> lenN (cstr hostname) <= 254 ->
+  message_unpack msg =
+    Ok (UAnswers (query_header qid edns) (mkQ (join_dots (host_labels hostname)) (qtype mod 65536) dns_CLASS_IN) []).
+Proof. exact build_query_roundtrip_len. Qed.
+Print Assumptions C37_packed_query_decodes_back_upto_254_octets.
+
+(* well-formed host names (labels of 1..63 octets without '.' and NUL): the decoded question IS the rfc1035_query the
+   builder handed to its caller, and rfc1035QueryCompare accepts the pair *)
+Theorem C37_wellformed_query_round_trip : forall sz labels qid qtype edns msg q,
+  hostname_wf labels -> wire labels < 256 -> qid < 65536 ->
+  build_query sz (join_dots labels) qid qtype edns = Ok (msg, q) ->
+  q = mkQ (join_dots labels) (qtype mod 65536) dns_CLASS_IN /\
+  message_unpack msg = Ok (UAnswers (query_header qid edns) q []) /\
+  query_compare q q = true.
+Proof. exact build_query_wellformed_roundtrip. Qed.
+Print Assumptions C37_wellformed_query_round_trip.
+
+(* the builders do succeed when the buffer has room (the three theorems above are not vacuous) *)
+Theorem C37_query_builder_succeeds_with_room : forall sz hostname qid qtype,
+  12 + wire (host_labels hostname) + 5 <= sz ->
+  exists msg q, build_query sz hostname qid qtype 0 = Ok (msg, q).
+Proof. exact build_query_succeeds. Qed.
+Print Assumptions C37_query_builder_succeeds_with_room.
+
+(* ---------- the hypotheses are satisfiable ---------- *)
+Definition ex_www : bytes := [119;119;119].
+Definition ex_com : bytes := [99;111;109].
+(* 12 header octets, "www" root at 12, then "a" + pointer to 12 at offset 17 *)
+Definition ex_buf : bytes := [0;0;0;0;0;0;0;0;0;0;0;0; 3;119;119;119;0; 1;97;192;12].
+Example C37_ex_name_layout_with_pointer : name_at ex_buf 1 17 [[97]; ex_www] 21.
+Proof.
+  apply na_label with (l := [97]); try (cbn; lia); try reflexivity.
+  apply (na_ptr true ex_buf 0 19 192 12 [ex_www] 17); try reflexivity; [discriminate|].
+  apply na_label with (l := ex_www); try (cbn; lia); try reflexivity.
+  apply (na_root true ex_buf 0 16). reflexivity.
+Qed.
+Example C37_ex_name_layout_decoded :
+  name_unpack ex_buf (lenN ex_buf) 17 256 256 0 = Ok ([97;46;119;119;119], 21, 6).
+Proof. vm_compute. reflexivity. Qed.
+
+Definition ex_h : header := mkHdr 4660 1 0 0 0 1 1 0 1 2 0 0.
+Definition ex_ql : list bytes := [ex_www; ex_com].
+Definition ex_rrs : list rrspec :=
+  [ mkRS true ex_ql 1 1 300 [] [1;2;3;4];                 (* A record, owner = pointer to the question name *)
+    mkRS false [[120]] dns_TYPE_PTR 1 5 [[97;98]; ex_com] [] ].  (* PTR record, owner in full, rdata a name *)
+Example C37_ex_reference_encoder_hypotheses :
+  header_wf ex_h /\ h_qd ex_h = 1 /\ h_an ex_h = lenN ex_rrs /\ labels_wf ex_ql /\ wire ex_ql < 256 /\ text_ok ex_ql /\
+  Forall (rr_wf ex_ql) ex_rrs.
+Proof.
+  repeat split; try (cbn; lia); try reflexivity; try discriminate;
+    repeat (constructor; try (cbn; lia); try reflexivity; try discriminate).
+Qed.
+Example C37_ex_reference_encoder_decoded :
+  message_unpack (enc_msg ex_h 5 ex_ql 1 1 ex_rrs [7;7;7]) =
+  Ok (UAnswers ex_h (mkQ [119;119;119;46;99;111;109] 1 1)
+        [ mkRR [119;119;119;46;99;111;109] 1 1 300 4 [1;2;3;4];
+          mkRR [120] 12 1 5 7 [97;98;46;99;111;109] ]).
+Proof. vm_compute. reflexivity. Qed.
+
+Example C37_ex_wellformed_host : hostname_wf ex_ql /\ wire ex_ql < 256.
+Proof. split; [split; [discriminate|repeat constructor; cbn; lia]|cbn; lia]. Qed.
+Example C37_ex_query_built_and_decoded :
+  exists msg q, build_query 512 (join_dots ex_ql) 4660 dns_TYPE_AAAA 4096 = Ok (msg, q) /\
+    message_unpack msg = Ok (UAnswers (query_header 4660 4096) q []) /\ lenN msg = 36.
+Proof. eexists. eexists. split; [vm_compute; reflexivity|]. split; vm_compute; reflexivity. Qed.
+(* PTR query for 1.2.3.4: the question is 4.3.2.1.in-addr.arpa, the caller's query keeps the trailing dot;
+   rfc1035QueryCompare treats them as the same query *)
+Example C37_ex_ptr_query :
+  exists msg q dq h, build_ptr_query 512 1 2 3 4 7 0 = Ok (msg, q) /\
+    message_unpack msg = Ok (UAnswers h dq []) /\ q_name q = q_name dq ++ [46] /\ query_compare q dq = true.
+Proof. eexists. eexists. eexists. eexists. split; [vm_compute; reflexivity|]. split; [vm_compute; reflexivity|].
+  split; vm_compute; reflexivity. Qed.
+(* the side condition wire < 256 is needed: a 255-octet host name (63.63.63.63) is packed, but its decoding stops when
+   the 256-byte name buffer is full, one octet before the root label, and reads type 0 / class 256 *)
+Definition ex_x63 : bytes := repeat 120 63.
+Example C37_ex_255_octet_host_is_beyond_the_round_trip :
+  exists msg q dq h, build_query 512 (join_dots [ex_x63; ex_x63; ex_x63; ex_x63]) 1 1 0 = Ok (msg, q) /\
+    message_unpack msg = Ok (UAnswers h dq []) /\ q_type q = 1 /\ q_type dq = 0 /\ q_class dq = 256.
+Proof. eexists. eexists. eexists. eexists. split; [vm_compute; reflexivity|]. split; [vm_compute; reflexivity|].
+  repeat split. Qed.
